@@ -542,8 +542,9 @@ impl SerializableValue {
                 SerializableValue::List(arr.iter().map(Self::from_json).collect())
             }
             serde_json::Value::Object(obj) => {
-                // Check if this is a function object
-                if let Some(func_value) = obj.get("__blots_function")
+                // Check if this is a function object: exactly {"__blots_function": "<source>"}
+                if obj.len() == 1
+                    && let Some(func_value) = obj.get("__blots_function")
                     && let Some(func_str) = func_value.as_str()
                 {
                     // Try to parse as a built-in function first (just a name)
